@@ -4,7 +4,8 @@ import yaml
 from jv import drive, dsl, hooks, real, rulegen as RG
 
 LEVEL = "exploration"
-RULE = ("S-syn listings x rules of all operator kinds (positives and near misses), each (rule, input) executed through "
+RULE = ("S-syn listings (incl. relocatable-object style listings whose sections restart at address 0, so addresses and whole "
+        "records repeat) x rules of all operator kinds (positives, near misses, and rules that can match the empty sequence), each (rule, input) executed through "
         "MasterOfPuppets under all 2x2x2 combinations of return mode (bool/list), search mode (first/all) and address-only "
         "flag (8 real executions). Relations checked: bool == (list non-empty) in each of the 4 (search, address-only) "
         "settings; first-mode list == all-mode list[:1]; address-only element == text before '::' of the corresponding "
@@ -21,6 +22,9 @@ _installed = False
 
 
 def feat(rng):
+    if rng.random() < 0.2:
+        # rules that can match the empty sequence (every element optional) are in scope here: the modes must still agree
+        return RG.Feat(operands=0.4, groups=0.2, times_item=1.0, group_times=1.0, zero_min=0.9, max_depth=1, max_spine=rng.choice([1, 2]))
     return RG.Feat(operands=0.6, groups=0.25, nots=0.15, ogroups=0.1, icaps=0.08, ocaps=0.1, times_item=0.2,
                    group_times=0.2, max_depth=2, max_spine=rng.choice([1, 2, 3]))
 
@@ -128,7 +132,8 @@ def run_shard(ctx):
     install()
     for m in REC.missing:
         ctx.event("hook_missing:" + m)
-    d = drive.Driver(ctx, feat, flags="random", styles=("mixed", "runs", "tiny", "dups"), judge_model=False, extra=monitor)
+    d = drive.Driver(ctx, feat, flags="random", styles=("mixed", "runs", "tiny", "dups", "multisec"), judge_model=False, extra=monitor,
+                     allow_empty=True)
     d.loop(700, 20000)
     binary_stratum(ctx, d.ws, ctx.share(64, 2000))
 
